@@ -47,6 +47,12 @@ VARIANTS = [
     {"pool": {"__pool__": 4}, "likelihood_chunksize": 100000,
      "parallelise_prior": True},
     {"n_pool": 1, "likelihood_chunksize": 100000},
+    # a user pool whose size cannot be read off the object, with the size
+    # stated through n_pool
+    {"pool": {"__pool__": 2, "wrapped": True}, "n_pool": 2},
+    {"pool": {"__pool__": 3, "wrapped": True}, "n_pool": 3,
+     "likelihood_chunksize": 7},
+    {"n_pool": 3, "parallelise_prior": True},
 ]
 
 
@@ -158,7 +164,7 @@ def run(ctx):
     groups = configs.collect(group(), ctx.seed, n,
                              key=lambda g: g["base"])
     # windows of three consecutive table entries, shifted group by group:
-    # five groups cover the table once
+    # six groups cover the table once
     for i, g in enumerate(groups):
         start = (3 * i + ctx.seed) % len(VARIANTS)
         g["variants"] = [{}] + [VARIANTS[(start + j) % len(VARIANTS)]
